@@ -30,7 +30,7 @@ def run(check, pool, Task):
                 check.record(t.name, dict(r, status='inconclusive', detail=f'counterexample did not reproduce: {wit}'), 'kernel', m)
         else:
             check.record(t.name, r, 'kernel', m)
-    derivs = ['identity', 'slice[1:]', 'slice[1:3]', 'take[2,0,-1]', 'take_fill[0,NA,2]', 'concat[2:]+[:2]', 'empty[:0]'] + (
+    derivs = ['identity', 'slice[1:]', 'slice[1:3]', 'head[:2]', 'take[2,0,-1]', 'take_fill[0,NA,2]', 'concat[2:]+[:2]', 'empty[:0]'] + (
         ['pickle(slice)[1:]', 'reverse[::-1]', 'slice[1:][1:]', 'mask'] if thorough else [])
     wrappers.run_arrays(check, pool, Task, 'C13', ('bounds', 'total_bounds'), derivs=derivs, dtypes=('float64',), flags=True)
     wrappers.run_arrays(check, pool, Task, 'C13', ('bounds', 'total_bounds'), derivs=['slice[1:]'], dtypes=wrappers.DTYPES_ALL[1:] if thorough else ('int16', 'float32'))
